@@ -7,7 +7,8 @@ THEOREMS = ["c08_self_or_admin", "c08_admin_only", "c08_other_tokens_need_u2f", 
             "c08_only_target_changes", "c08_history", "c08_cache", "c08_cache_window",
             "c08_cache_granted_has_source", "c08_login_subject", "c08_case_variant_is_other_user",
             "c08_roles_admin_justified", "c08_roles_admin_has_source", "c08_roles_never_promoted",
-            "c08_authorize_is_gate_extra", "c08_gate_and_authorize", "c08_gate_and_authorize_may_act", "c08_obs_cell_is_spec"]
+            "c08_authorize_is_gate_extra", "c08_gate_and_authorize", "c08_gate_and_authorize_may_act", "c08_obs_cell_is_spec",
+            "c08_rolecert_exact_identity", "c08_rolecert_unconfigured_refused", "c08_rolecert_identity_nonempty"]
 
 TRUSTED = [
     "checkAuth runs in front of the model: the model starts from the authenticated (user, level) of a valid session cookie or a verified keymaster client-certificate chain (Model/Auth.v is the model of checkAuth, lemma authenticate_is_check_auth relates the two; c08_gate_and_authorize composes the C06 gate model with the handler tests, route by route)",
